@@ -1,7 +1,7 @@
 CONSTANTS
-  NArb = 2
+  NArb = 1
   Thr = {t1}
-  PreCreated = 2
+  PreCreated = 1
   Kinds = {"spawn", "spawn_fn"}
   TaskStop = FALSE
   AtomicCalls = TRUE
